@@ -34,9 +34,15 @@ pub fn header(kind: RecordKind) -> Vec<u8> {
 pub fn expected_type(kind: RecordKind, value: &[u8]) -> RecordType {
     match kind {
         RecordKind::Chunk => RecordType::Chunk,
-        RecordKind::Scratchpad => RecordType::Scratchpad,
         _ => RecordType::NonChunk(XorName::from_content(value)),
     }
+}
+
+/// The listing must identify the current content: chunks as `Chunk`, mutable kinds by the hash of the
+/// stored value. For scratchpads the version-less `Scratchpad` marker is admitted too (the statement
+/// does not fix the marker; the store itself lists them by content hash after a restart).
+pub fn type_ok(kind: RecordKind, value: &[u8], listed: &RecordType) -> bool {
+    *listed == expected_type(kind, value) || (kind == RecordKind::Scratchpad && *listed == RecordType::Scratchpad)
 }
 
 /// a stored-kind record value: 2-byte header + msgpack bin payload carrying a unique id
@@ -208,7 +214,7 @@ impl Run<'_, '_> {
                         self.viol("accepted-write-not-contained", format!("after settling, k{k} is not reported as held"));
                     }
                     match in_list {
-                        Some(t) if t == expected_type(*kind, v) && n_listed == 1 => {}
+                        Some(t) if type_ok(*kind, v, &t) && n_listed == 1 => {}
                         other => self.viol("accepted-write-not-listed-correctly", format!("after settling, k{k} is listed as {other:?} ({n_listed} entries), expected {:?}", expected_type(*kind, v))),
                     }
                 }
